@@ -126,7 +126,8 @@ def generate(rng, tier):
         cases.append("i.nth_root %s %s" % (I(-x), N(rng.choice([2, 4, 64, 1000]))))
     for x in (0, 1):
         cases += ["u.sqrt %s" % U(x), "u.cbrt %s" % U(x), "i.sqrt %s" % I(x), "i.cbrt %s" % I(x)]
-    return cases
+    import extra_cases          # API-audit additions (docs/API_COVERAGE.md); produced after the original cases
+    return cases + extra_cases.c11(rng, tier, cases)
 
 def nontrivial(case):
     toks = case.split(" ")
